@@ -180,6 +180,8 @@ func (r *receiver) run(ctx context.Context) error {
 	metadataBuffer := &buffer{}
 	// stack of parent paths that can be replayed if metadata filter matches
 	metadataParents := newStack[*currentPath]()
+	// link sources that have been forwarded to the disk writer
+	var forwardedLinks Hardlinks
 
 	g.Go(func() (retErr error) {
 		defer func() {
@@ -293,6 +295,11 @@ func (r *receiver) run(ctx context.Context) error {
 					if metaOnly {
 						continue
 					} else {
+						// a hard link is created from the destination's own copy of its
+						// source, so that copy has to come from this transfer as well
+						if err := forwardedLinks.HandleChange(ChangeKindAdd, cp.path, &StatInfo{cp.stat}, nil); err != nil {
+							return err
+						}
 						for _, cp := range metadataParents.items {
 							if err := w.update(cp); err != nil {
 								return err
